@@ -328,6 +328,20 @@ def r3_invalid_cache_reaches_fallback(ctx):
     r = gx.reach([gx.entry], avoid=writes, avoid_edges=skip_edge, follow_exc=False)
     ok = bool(writes) and gx.exit.id not in r
     ctx.ob("C14.R3", f"{IMP}::_exec_module::cache rewritten unless sys.dont_write_bytecode", IMP, xm.lineno, ok, "" if ok else "a successful compile from source can finish without writing the cache")
+    # "the loader recompiles from source, succeeds": writing the cache is the one step of the fallback
+    # that may fail for reasons that have nothing to do with the namespace (read-only location, bad
+    # pycache prefix); the write is inside a handler for OSError that does not re-raise
+    cb = P.find_def(ctx.py(IMP), "BasilispImporter._cache_bytecode") or ctx.fn(IMP, "BasilispImporter._cache_bytecode")
+    sd = [c for c in P.calls(cb) if P.un(c.func) == "self.set_data"]
+    if not sd:
+        raise AnalysisError("_cache_bytecode no longer writes with self.set_data")
+    for c in sd:
+        hs = [h for a in P.ancestors(c) if isinstance(a, ast.Try) and P.contains(cb, a) and any(P.contains(s, c) for s in a.body) for h in a.handlers]
+        ok = any((h.type is None or any(_covers({P.un(e).split(".")[-1] for e in (h.type.elts if isinstance(h.type, ast.Tuple) else [h.type])}, x) for x in ("OSError",)))
+                 and not any(isinstance(x, ast.Raise) for s in h.body for x in ast.walk(s)) for h in hs)
+        ctx.ob("C14.R3", f"{IMP}::_cache_bytecode::a cache that cannot be written does not fail the import", IMP, c.lineno, ok,
+               "" if ok else "self.set_data(...) is not covered by a handler for OSError: with an unwritable cache location the namespace compiles and runs, and then the import raises from the cache write",
+               witness="sys.pycache_prefix below a regular file: importing a .lpy namespace raises NotADirectoryError, a .py module imports fine")
     wc = [c for c in P.calls(xm) if P.un(c.func) == "_basilisp_bytecode"]
     ok = bool(wc) and [P.un(a) for a in wc[0].args[:2]] == ["path_stats['mtime']", "path_stats['size']"]
     ctx.ob("C14.R3", f"{IMP}::_exec_module::header written from the same (mtime, size)", IMP, xm.lineno, ok, "" if ok else "the cache header is not written from path_stats mtime/size in order")
@@ -439,6 +453,8 @@ def r4_baked_constants_are_validated_hints(ctx):
 
 
 SELFTEST = [
+    {"name": "cache write failure fails the import (the repaired defect)", "file": IMP, "expect": "C14.R3",
+     "old": "        try:\n            self.set_data(cache_path, data)\n        except OSError as e:\n            logger.debug(f\"Could not write Basilisp bytecode cache '{cache_path}': {e}\")\n", "new": "        self.set_data(cache_path, data)\n"},
     {"name": "header compared with the unmasked value (the repaired defect)", "file": IMP, "expect": "C14.R2",
      "old": "    elif raw_timestamp != _w_long(mtime):\n", "new": "    elif _r_long(raw_timestamp) != mtime:\n"},
     {"name": "twin: header compared as decoded, masked integers", "file": IMP, "expect": None,
